@@ -43,7 +43,7 @@ def enumerated_families(ctx, space, threshold_small):
     for s in streams:
         by_len.setdefault(len(s), []).append(s)
     chosen = []
-    quota = {1: 7, 2: 20, 3: 30, 4: 40, 5: 18} if not T else {1: 7, 2: 49, 3: 343, 4: 2401, 5: 1500}
+    quota = {1: 7, 2: 30, 3: 60, 4: 80, 5: 30} if not T else {1: 7, 2: 49, 3: 343, 4: 1200, 5: 500}
     for n, ss in sorted(by_len.items()):
         ss = sorted(ss)
         k = min(quota.get(n, 0), len(ss))
@@ -67,7 +67,7 @@ def production_families(ctx, space, threshold):
     T = ctx.thorough
     letters, ts = space["letters"], space["ts"]
     words = [s for s in space["streams"] if 2 <= len(s) <= (3 if not T else 4) and len({letters[i - 1]["u"] for i in s}) >= 2]
-    words = ctx.rng.sample(sorted(words), 4 if not T else 60)
+    words = ctx.rng.sample(sorted(words), 6 if not T else 40)
     fams = []
     for w in words:
         k = ctx.rng.choice([threshold - 2, threshold - 1, threshold - 1, threshold])
@@ -81,7 +81,7 @@ def production_families(ctx, space, threshold):
             runs.append({"split": [k] + c, "restart": [1]})
             runs.append({"split": [k + c[0]] + c[1:], "restart": [] if len(c) == 1 else [1]})
             runs.append({"split": [k // 2, k - k // 2] + c, "restart": [ctx.rng.randint(1, len(c) + 1)]})
-        fams.append({"threshold": threshold, "known": [], "recs": pre + tail, "runs": runs[: (10 if not T else 40)], "kind": "production-threshold"})
+        fams.append({"threshold": threshold, "known": [], "recs": pre + tail, "runs": runs[: (10 if not T else 24)], "kind": "production-threshold"})
     return fams
 
 
@@ -89,7 +89,7 @@ def random_families(ctx, threshold):
     T = ctx.thorough
     rng = ctx.rng
     fams = []
-    for f in range(5 if not T else 60):
+    for f in range(8 if not T else 40):
         n = rng.randint(40, 90 if not T else 160)
         wide = rng.choice([threshold + 5, threshold + 1, threshold, threshold - 3])       # siblings under h.com/u
         pool = ["h.com/u/k%02d" % j for j in range(wide)] + ["h.com/a/%d/b" % j for j in range(rng.choice([3, threshold + 2]))] + \
@@ -171,6 +171,19 @@ def validate(ctx, events, tag, max_rounds=4):
     return sum(len(runs) for _, runs in fams), rejected
 
 
+def model_conformance(ctx, events, tag):
+    """the same recording followed by the implementation-shaped model (DiscoveryTraceI).  Returns None or a description of the drift."""
+    wd = workdir(ctx, "drift-" + tag)
+    write_ndjson(os.path.join(wd, "trace.ndjson"), events)
+    ok, hwm, r = ctx.tlc_trace(wd, "DiscoveryTraceI", os.path.join(wd, "trace.ndjson"), cfg="DiscoveryTraceI.cfg", timeout=1500)
+    if ok and not r.violated:
+        return None
+    if not r.violated:
+        raise Broken("model conformance %s stopped at line %d without a verdict: %r\n%s" % (tag, hwm, r, r.out[-2000:]))
+    d = re.findall(r'drift = "([^"]*)"', r.out)
+    return "line %d: %s" % (hwm, d[-1] if d else "?")
+
+
 def script_of(fam_meta, stream, run):
     split = [e["n"] for e in run if e["ev"] == "batch"]
     restart, b = [], 0
@@ -191,14 +204,17 @@ def witness_of(rej, fam_meta):
             "threshold": fam_meta["threshold"], "kind": fam_meta.get("kind", "")}
 
 
-def judge(ctx, binary, fams, tag, chunks):
+def judge(ctx, binary, fams, tag, chunks, model_chunks=0):
     paths = execute(ctx, binary, fams, tag, chunks)
     traces = [read_ndjson(p) for p in paths]
 
     def one(it):
         i, ev = it
+        if i >= chunks:
+            return model_conformance(ctx, traces[i - chunks], "%s%d" % (tag, i - chunks))
         return validate(ctx, ev, "%s%d" % (tag, i))
-    res = parallel(one, list(enumerate(traces)), n=chunks)
+    allres = parallel(one, list(enumerate(traces + traces[:model_chunks])), n=chunks + model_chunks)
+    res, drifts = allres[:chunks], [d for d in allres[chunks:] if d]
     meta = {f["id"]: f for f in fams}
     nruns = nbatches = nontrivial = accepted = 0
     viol = []
@@ -225,7 +241,8 @@ def judge(ctx, binary, fams, tag, chunks):
             if not rej2:
                 raise Broken("rejection not reproduced (%s): %s" % (tag, json.dumps(w)))
             viol.append((w, {"script": sc, "recorded_run": rej["run"], "rejected_at": rej["at"], "law": rej["law"]}))
-    return {"runs": nruns, "batches": nbatches, "nontrivial": nontrivial, "accepted": accepted, "viol": viol, "traces": traces, "fams": len(fams)}
+    return {"runs": nruns, "batches": nbatches, "nontrivial": nontrivial, "accepted": accepted, "viol": viol, "traces": traces, "fams": len(fams),
+            "drifts": drifts, "model_chunks": model_chunks}
 
 
 def apply(ctx, r, label):
@@ -234,6 +251,11 @@ def apply(ctx, r, label):
     ctx.cov["distinct_nontrivial"] += r["nontrivial"]
     for w, obj in r["viol"]:
         ctx.violation(w, obj)
+    if r["drifts"]:
+        ctx.cov["model_drift"] = True
+        ctx.notes.append("MODEL-DRIFT (%s): the recorded aggregates differ from DiscoveryI's: %s" % (label, "; ".join(r["drifts"][:3])))
+    elif r["model_chunks"]:
+        ctx.notes.append("%s: %d of the recorded trace files were also followed step by step by the model DiscoveryI without a difference" % (label, r["model_chunks"]))
     ctx.log("%s: %d streams, %d runs, %d batches on the real code (%d runs with convergence across batches), %d rejected" % (
         label, r["fams"], r["runs"], r["batches"], r["nontrivial"], len(r["viol"])))
 
@@ -283,14 +305,20 @@ def run(ctx):
         if name == "mc":
             return parallel(mc, jobs, n=2 if not T else 3)
         if name == "enum":      # (2) spec -> code: TLC-enumerated streams x compositions x restart points
-            return judge(ctx, binary, fams, "enum", 5 if not T else 8)
+            return judge(ctx, binary, fams, "enum", 6 if not T else 10, model_chunks=3 if not T else 10)
         if name == "prod":      # (3) production threshold behind a prelude
             return judge(ctx, binary, pf, "prod", 2 if not T else 4)
         return judge(ctx, binary, rf, "rand", 3 if not T else 4)      # (4) seeded random long streams (code -> spec)
+    def timed(name):
+        import time
+        t = time.time()
+        r = part(name)
+        ctx.log("part %s took %.0fs" % (name, time.time() - t))
+        return r
     if T:
-        out = [part(n) for n in ("mc", "enum", "prod", "rand")]
+        out = [timed("mc")] + parallel(timed, ["enum", "prod", "rand"], n=3)
     else:
-        out = parallel(part, ["mc", "enum", "prod", "rand"], n=4)
+        out = parallel(timed, ["mc", "enum", "prod", "rand"], n=4)
     res, r_enum, r_prod, r_rand = out
     for (cfg, label, tag), r in zip(jobs, res):
         ctx.cov["tlc_runs"].append({"module": "MC_C15", "cfg": cfg, "generated": r.generated, "distinct": r.distinct,
